@@ -358,6 +358,9 @@ fn content(idx: usize, apex: &[u8], ext_target: &[u8], full: bool) -> Vec<Rec> {
     // everything below dn.<apex> is redirected below ent.<apex> (RFC 6672)
     v.push(Rec::new(&sub("dn", apex), T_DNAME, 3600, sub("ent", apex)));
     v.push(a(&sub("b.ent", apex), [192, 0, 2, 10]));
+    // a DNAME whose target is its own owner: every name below it is
+    // redirected to itself (a loop made of one signed record)
+    v.push(Rec::new(&sub("dl", apex), T_DNAME, 3600, sub("dl", apex)));
     v.push(cname(&sub("loop1", apex), &sub("loop2", apex)));
     v.push(cname(&sub("loop2", apex), &sub("loop1", apex)));
     v
